@@ -444,3 +444,61 @@ def rule_obs_partition(ctx):
     ctx.report(RULE_PAIR, "revision_observations:count-from-used-list", bool(cnt), fn.where(), fn.short,
                "" if cnt else "pocmer_ (number of observations) is not taken from revised_obs_")
     ctx.floor(RULE_PAIR, 4, n, "observation partition obligations")
+
+
+# --------------------------------------------------------------------------- export visitor: angular scale siblings (C13)
+
+RULE_UNIT = "R-UNIT"
+
+
+def _is_angular(fx, cls):
+    """T::angular() of the observation class (most derived definition): returns the literal true?"""
+    for h in [cls] + fx.bases_of(cls):
+        for f in fx.methods_of(h):
+            if f.name == "angular" and not f.params and f.body is not None:
+                lits = [x.get("v") for x in f.walk() if x.get("k") == "CXXBoolLiteralExpr"]
+                rets = [x for x in f.walk() if x.get("k") == "ReturnStmt"]
+                if len(rets) == 1 and len(lits) == 1:
+                    return bool(lits[0])
+                raise AnalysisBroken("R-UNIT: %s::angular() is no longer a literal" % h)
+    return None
+
+
+def rule_export_scale_siblings(ctx):
+    """DisplayObservationVisitor (the observation part of --export): the standard deviation of every
+    angular observation type is multiplied by the visitor's `scale` member (cc <-> arc seconds when the
+    network is written in degrees) and that of every linear type is not - the sibling visit() methods
+    agree with T::angular()."""
+    fx = ctx.facts
+    cls = "GNU_gama::local::DisplayObservationVisitor"
+    fx.cls(cls)
+    n = 0
+    for fn in fx.methods_of(cls):
+        if fn.name != "visit" or len(fn.params) != 1 or fn.body is None:
+            continue
+        t = fn.params[0]["t"].replace("*", "").replace("const", "").strip()
+        ang = _is_angular(fx, t)
+        if ang is None:
+            raise AnalysisBroken("R-UNIT: cannot find %s::angular()" % t)
+        ctx.saw(fn)
+        assigns = []
+        for x in fn.walk():
+            if x.get("k") in ("CXXOperatorCallExpr", "BinaryOperator") and x.get("op") == "=":
+                c = x.get("c") or []
+                lhs = c[1] if x["k"] == "CXXOperatorCallExpr" and len(c) > 2 else (c[0] if c else None)
+                if lhs is not None and F.is_this_field(lhs, "str_stdev"):
+                    assigns.append(x)
+        if not assigns:
+            raise AnalysisBroken("R-UNIT: %s does not assign str_stdev" % fn.sig)
+        for ai, a in enumerate(assigns):
+            uses_scale = any(F.is_this_field(y, "scale") for y in walk(a))
+            uses_stdev = any(F.is_call(y) and (y.get("callee") or "").endswith("::stdDev") for y in walk(a))
+            ok = uses_stdev and (uses_scale == ang)
+            n += 1
+            ctx.report(RULE_UNIT, "DisplayObservationVisitor::visit(%s):stdev-scale%s" % (short(t), "" if len(assigns) == 1 else "#%d" % ai),
+                       ok, fn.where(a), fn.short,
+                       "" if ok else ("the exported standard deviation of the %s type %s is %s by `scale`, unlike its "
+                                      "siblings (angular types are scaled, linear ones are not)"
+                                      % ("angular" if ang else "linear", short(t),
+                                         "not multiplied" if ang else "multiplied")))
+    ctx.floor(RULE_UNIT, 13, n, "DisplayObservationVisitor standard-deviation assignments")
